@@ -6,7 +6,7 @@ import copy
 
 from .core import Result, finding, norm_construct
 from .model import Repo
-from .structure import call_name, call_target, calls_in, path_calls, stmt_paths
+from .structure import attr_stores, call_name, call_target, calls_in, path_calls, stmt_paths
 
 
 def check_helper_config(prop: str, res: Result, repo: Repo):
@@ -34,6 +34,78 @@ def check_helper_config(prop: str, res: Result, repo: Repo):
                 res.fail(rule, finding(prop, rule, m, st, f"Indicator.{nm} overrides the helper's own configuration ({attr}): helper series are then not the ones the definition is built from (e.g. a coarser rounding feeds back into recursive helpers)"))
         else:
             res.ok(rule, {"site": m.where, "why": f"binds the helper only ({', '.join(sorted(allowed))}); its configuration stays what _initialise passed"}, nontrivial=nm)
+
+
+def check_config_passthrough(prop: str, res: Result, repo: Repo):
+    """R-CONFIG: a dict definition of an indicator reaches the class with every setting it carries: _build_indicator passes a plain
+    copy of the given dict (minus the popped 'indicator' / 'analysis' key); a filtered rebuild drops legitimate falsy settings"""
+    rule = "R-CONFIG"
+    bi = repo.method("hexital.core.hexital", "Hexital", "_build_indicator")
+    param = next((p for p in bi.params if p != "self"), "raw_indicator")
+    defs = {}
+    for n in ast.walk(bi.node):
+        if isinstance(n, ast.Assign):
+            for t in n.targets:
+                if isinstance(t, ast.Name):
+                    defs.setdefault(t.id, []).append(n.value)
+    stars = [k.value for c in calls_in(bi.node) for k in c.keywords if k.arg is None]
+    if not stars:
+        res.errors.append(f"{bi.where}: _build_indicator passes no **settings to a class: cannot decide that every setting arrives")
+        return
+    bad, unknown = None, None
+    for sv in stars:
+        seen, todo = set(), [sv]
+        while todo:
+            e = todo.pop()
+            for n in ast.walk(e):
+                if isinstance(n, (ast.DictComp, ast.ListComp, ast.GeneratorExp, ast.SetComp)) and any(g.ifs for g in n.generators):
+                    bad = bad or n
+                elif isinstance(n, ast.Call) and call_name(n) in ("filter",):
+                    bad = bad or n
+                elif isinstance(n, ast.Name) and n.id in defs and n.id not in seen:
+                    seen.add(n.id)
+                    todo.extend(defs[n.id])
+    if bad is not None:
+        res.fail(rule, finding(prop, rule, bi, bad, "the settings of a dict-defined indicator are rebuilt through a filter before they reach the class: legitimate falsy settings (count_value=False, round_value=0, timeframe_fill=False ...) are dropped, so the dict form no longer builds the indicator the object form builds"))
+    else:
+        res.ok(rule, {"site": bi.where, "why": "the given dict (a copy, minus the popped selector key) is passed on as it is"}, nontrivial="config")
+
+
+def check_cursor_kept(prop: str, res: Result, repo: Repo):
+    """R-CURSOR: calculate_index leaves the cursor on the last index it computed: helpers are read back through it (reading() without
+    an index) right after they were recomputed"""
+    rule = "R-CURSOR"
+    m = repo.method("hexital.core.indicator", "Indicator", "calculate_index")
+    loops = [n for n in m.node.body if isinstance(n, ast.For)]
+    lv = ast.unparse(loops[0].target) if loops else None
+    bad = None
+    for n in ast.walk(m.node):
+        if isinstance(n, ast.Call) and call_name(n) in ("_set_active_index", "set_active_index") and not (n.args and ast.unparse(n.args[0]) == lv):
+            bad = bad or n
+        if isinstance(n, (ast.Assign, ast.AugAssign)):
+            for t in (n.targets if isinstance(n, ast.Assign) else [n.target]):
+                if isinstance(t, ast.Attribute) and t.attr == "_active_index":
+                    bad = bad or n
+    if bad is not None:
+        res.fail(rule, finding(prop, rule, m, bad, "calculate_index moves the active index to something other than the index it is computing (e.g. restores the previous position afterwards): a composite that recomputes a helper and reads it back without an index (MACD's signal line) then reads another candle's value, and the stored reading is never repaired"))
+    elif loops:
+        res.ok(rule, {"site": m.where, "why": "the only cursor movement in calculate_index is _set_active_index(<loop index>)"}, nontrivial="cursor:index")
+
+
+def check_converter_stateless(prop: str, res: Result, repo: Repo):
+    """R-STATE: a candlestick type keeps no state between conversion passes: one instance serves every manager of a Hexital"""
+    rule = "R-STATE"
+    ct = repo.cls("hexital.core.candlestick_type", "CandlestickType")
+    n = 0
+    for fi in repo.all_functions():
+        if fi.cls is None or not repo.is_subclass(fi.cls, ct) or fi.name in ("__init__", "__post_init__"):
+            continue
+        for st, t in attr_stores(fi.node):
+            if isinstance(t.value, ast.Name) and t.value.id == "self":
+                n += 1
+                res.fail(rule, finding(prop, rule, fi, st, f"the candlestick type stores state on itself (self.{t.attr}) while converting: the same instance converts the candle lists of every manager of a Hexital, so what it remembers about one list is applied to another"))
+    if n == 0:
+        res.ok(rule, {"class": "CandlestickType and subclasses", "why": "no attribute store on self outside construction"}, nontrivial="converter-state")
 
 
 def check_active_cursor(prop: str, res: Result, repo: Repo):
